@@ -38,8 +38,8 @@ MAX_V_PER_SIG_PER_TASK = 2
 
 TIERS = {
     "quick": dict(
-        v2_bound=5, v2_dyn_all=4, v2_dyn_stride={5: 16}, v1_bound=5, kmax=3,
-        rich_dyn=True, pairs=False, files_stride=1, depth=4, max_steps=120, budget_s=75,
+        v2_bound=5, v2_dyn_all=5, v2_dyn_stride={}, v1_bound=6, kmax=3,
+        rich_dyn=True, pairs=False, files_stride=1, depth=4, max_steps=120, budget_s=55,
     ),
     "thorough": dict(
         v2_bound=7, v2_dyn_all=5, v2_dyn_stride={6: 16, 7: 256}, v1_bound=7, kmax=4,
@@ -71,7 +71,7 @@ class Acc:
 
     def result(self):
         return {"counts": self.c, "violations": self.viol, "per_sig": self.per_sig,
-                "samples": self.samples[:2], "reject": self.reject}
+                "samples": self.samples[:3], "reject": self.reject}
 
 
 def compile_v2(source=None, flows=None):
@@ -97,6 +97,8 @@ def check_v2_state(acc, st, origin, source, size, dyn=None, skip_helpers=True, f
         if file_rel is not None and fid == "main" and getattr(fc, "source_file", None) in ("", None):
             continue
         acc.add("v2_flows_checked")
+        if file_rel is not None:
+            acc.c.setdefault("shipped_flows_distinct", set()).add(("2.x", fc.source_file, fid))
         acc.add("states", len(cfg.states))
         acc.add("transitions", cfg.ntrans)
         acc.add("cfg_edges", len(cfg.edges))
@@ -130,9 +132,9 @@ def check_v2_state(acc, st, origin, source, size, dyn=None, skip_helpers=True, f
                 {"kind": "v2dyn", "origin": origin, "source": source, "flow": v["detail"]["flow"],
                  "detail": v["detail"], "history": v.get("history"), "size": size},
             )
-        if len(acc.samples) < 2 and counts["dyn_moves"]:
+        if not any(x["kind"] == "v2-program" for x in acc.samples) and counts["dyn_moves"]:
             acc.samples.append({
-                "origin": origin, "program": source,
+                "kind": "v2-program", "origin": origin, "program": source,
                 "cfg": {fid: {"elements": c.n, "states": len(c.states), "edges": len(c.edges)}
                         for fid, c in cfgs.items() if fid not in HELPER_FLOWS},
                 "interpreter": counts,
@@ -158,6 +160,13 @@ def do_v1_flows(acc, flows, origin, source, size, file_rel=None):
         els = f["elements"]
         probs, n, edges, types = G.v1_check(f["id"], els)
         acc.add("v1_flows_checked")
+        if file_rel is not None:
+            acc.c.setdefault("shipped_flows_distinct", set()).add(("1.0", file_rel, f["id"]))
+        if not any(x["kind"] == ("v1-file" if file_rel else "v1-program") for x in acc.samples) and n > 3:
+            acc.samples.append({
+                "kind": "v1-file" if file_rel else "v1-program", "origin": origin, "program": source,
+                "flow": f["id"], "elements": n, "offset_edges": edges, "element_types": types,
+            })
         acc.add("states", n)
         acc.add("transitions", edges)
         acc.add("v1_elements", n)
@@ -219,7 +228,12 @@ def do_file(acc, rel):
         os.chdir(cwd)
     acc.add("files_checked")
     if version == "2.x":
-        check_v2_state(acc, st, f"file:{rel}", None, 0, dyn=None, skip_helpers=False, file_rel=rel)
+        cfgs = check_v2_state(acc, st, f"file:{rel}", None, 0, dyn=None, skip_helpers=False, file_rel=rel)
+        acc.samples.append({
+            "kind": "v2-file", "file": rel, "flows_compiled": len(cfgs),
+            "abstract_states": sum(len(c.states) for c in cfgs.values()),
+            "cfg_edges": sum(len(c.edges) for c in cfgs.values()),
+        })
     else:
         do_v1_flows(acc, flows, f"file:{rel}", None, 0, file_rel=rel)
 
@@ -332,6 +346,7 @@ def run(rep, tier):
     viol = []
     per_sig = {}
     rejects = {}
+    sample_kinds = {}
     for res in par.pmap(work, tk, chunksize=1, deadline=deadline):
         done += 1
         k = res["task"][0]
@@ -347,8 +362,10 @@ def run(rep, tier):
             per_sig[s] = per_sig.get(s, 0) + n
         for kk, vv in res["reject"].items():
             rejects.setdefault(kk, vv)
-        for s in res["samples"]:
-            rep.sample(s)
+        for smp in res["samples"]:
+            if sample_kinds.get(smp["kind"], 0) < 2:
+                sample_kinds[smp["kind"]] = sample_kinds.get(smp["kind"], 0) + 1
+                rep.sample(smp, limit=8)
     planned_by_kind = {}
     for x in tk:
         key = x[0] if x[0] not in ("v2ctl", "v1ctl") else f"{x[0]}:n={x[1]}"
